@@ -302,6 +302,11 @@ def iterModel (deps : List Dep) (chunks : List (List Chunk)) (strict : Bool) : E
   | .error e => .error e
   | .ok r => .ok r.calls
 
+/-- `save_when > SaveWhen.EXPLICIT`, with `max(save_when.values())` for a multi-output plugin:
+`NEVER = 0`, `EXPLICIT = 1`, `TARGET = 2`, `ALWAYS = 3`; one entry per provided data type.
+(Both `Plugin.iter`'s leftover check and `do_compute`'s range check compute exactly this.) -/
+def saveWhenStrict (saveWhen : List Nat) : Bool := decide (1 < saveWhen.foldl max 0)
+
 /-! ### hypotheses of the theorems, as decidable predicates -/
 
 def chunkOKB (c : Chunk) : Bool :=
@@ -427,6 +432,17 @@ def sameOutcome : Except Err Result → Except Err Result → Bool
   | .ok a, .ok b => a == b
   | .error a, .error b => a == b
   | _, _ => false
+
+/-- the run fails with ten passes ONLY because of the pass budget: it is the `RuntimeError` with
+the literal ten, and with a budget that always suffices (`retrim_terminates`) the same input runs
+to the end.  This is the D9 situation and nothing else. -/
+def tenPassOnlyB (deps : List Dep) (chunks : List (List Chunk)) (strict : Bool) : Bool :=
+  (match iterRunP maxPasses deps chunks strict with
+   | .error .runtimeError => true
+   | _ => false) &&
+  (match iterRunP (maxPasses + (chunks.map allRows).flatten.length + 2) deps chunks strict with
+   | .ok _ => true
+   | .error _ => false)
 
 def passesSufficeB (deps : List Dep) (chunks : List (List Chunk)) (strict : Bool) : Bool :=
   sameOutcome (iterRunP maxPasses deps chunks strict)
